@@ -170,6 +170,8 @@ PROPS['C08'] = {
           bound='S = 8'),
         H(ROOT + 'c08::c08_k_owned_command', ['impl TryFrom<&Command<S>> for ctap1::Request'], kind='bounded',
           bound='S = 72', tier='thorough', timeout=1500),
+        H(ROOT + 'c08::c08_k_apdu_65600', ['impl TryFrom<CommandView> for ctap1::Request'], tier='thorough',
+          timeout=3600, mem_gb=48, note='the whole short + extended APDU domain (about 25 minutes, 10+ GB in CBMC)'),
     ],
     'assumptions': ['AV', 'AK', 'AS', 'AX'],
     'explanation': 'Unbounded proof: Verus verifies the real `TryFrom<CommandView> for ctap1::Request` (unit c08_apdu_request) against the '
@@ -178,8 +180,8 @@ PROPS['C08'] = {
                    'The iso7816 view is a ghost model there; that the view of a raw APDU is its Lc-delimited window and that the '
                    'U2F instruction bytes reach the parser as Unknown(b) is checked on the real iso7816 code by loop-free Kani '
                    'harnesses over every APDU up to 400 bytes (every decision boundary in all four length encodings), result compared '
-                   'with the same table, borrowed outputs by pointer identity. (A harness over all APDUs up to 65600 bytes exhausted '
-                   '24 GB in CBMC and was dropped.)',
+                   'with the same table, borrowed outputs by pointer identity; the thorough tier runs the same harness over all '
+                   'APDUs up to 65600 bytes = the whole ISO 7816 short + extended domain.',
 }
 
 _D_NOTE = ('Engine D: the effective wire tables are derived from the declarations in /repo/src (extracted by tools/declx on '
